@@ -62,6 +62,96 @@ Theorem C08_monomial_is_separable : forall es row,
 Proof. exact monomial_prodfun. Qed.
 Print Assumptions C08_monomial_is_separable.
 
+(* affine change of interval (what qnwlege does to the [-1,1] rule): exactness for the monomials
+   t^k, k <= p, on [-1,1] transfers to [a,b]; the exact moment of x^k on [lo,hi] is
+   (hi^(k+1) - lo^(k+1))/(k+1) *)
+Theorem C08_affine_preserves_degree : forall p a b ts ws,
+  (forall k, (k <= p)%nat ->
+     quad ts ws (fun t => qpow t k) == (qpow 1 (S k) - qpow (-1) (S k)) / qn (S k)) ->
+  forall k, (k <= p)%nat ->
+    quad (fst (affine_rule a b (ts, ws))) (snd (affine_rule a b (ts, ws))) (fun x => qpow x k)
+    == (qpow b (S k) - qpow a (S k)) / qn (S k).
+Proof. exact affine_spec. Qed.
+Print Assumptions C08_affine_preserves_degree.
+
+(* qnwunif: every integral of the Legendre rule divided by the volume of the box *)
+Theorem C08_qnwunif_scale : forall (X : Type) (nodes : list X) ws a b f,
+  quad nodes (unif_weights ws a b) f
+  == quad nodes ws f / prodq (map (fun p => snd p - fst p) (combine a b)).
+Proof. exact @unif_scale. Qed.
+Print Assumptions C08_qnwunif_scale.
+
+(* the loop of _qnwlege1 computes the Legendre polynomial of Bonnet's recurrence, and the kernel's
+   derivative formula n (z P_n - P_{n-1})/(z^2 - 1) is the formal derivative of that recurrence
+   (legPD in Proofs.v: j P_j = (2j-1) z P_{j-1} - (j-1) P_{j-2} and its termwise derivative) *)
+Theorem C08_legendre_recurrence_is_Pn : forall n z, ~ z * z - 1 == 0 ->
+  fst (lege_eval n z) == legP n z /\ snd (lege_eval n z) == legP' n z.
+Proof. exact lege_eval_spec. Qed.
+Print Assumptions C08_legendre_recurrence_is_Pn.
+
+Theorem C08_legendre_normalisation : forall n, legP n 1 == 1.
+Proof. intros n. exact (proj1 (legP_at_1 n)). Qed.
+Print Assumptions C08_legendre_normalisation.
+
+(* NOT PROVED (classical Gauss theorem): nodes = the roots of P_n, weights 2/((1-z^2) P_n'(z)^2)
+   integrate every monomial of degree <= 2n-1 exactly.  Over Q the hypothesis "all n roots" is
+   satisfiable only for n = 1 (P_n has no other rational roots), so the statement that matters is
+   about real roots; it is decided for the implementation's floating-point nodes by the oracle
+   (all moments up to 2n-1, 1e-10) and the root/weight correspondence. *)
+Definition C08_gauss_exact_2n_minus_1_full : Prop :=
+  forall n zs, (1 <= n)%nat -> length zs = n ->
+    (forall i j, (i < j < n)%nat -> ~ nthq zs i == nthq zs j) ->
+    (forall z, In z zs -> legP n z == 0) ->
+    forall k, (k <= 2 * n - 1)%nat ->
+      quad zs (map (fun z => 2 / ((1 - z * z) * legP' n z * legP' n z)) zs) (fun x => qpow x k)
+      == (qpow 1 (S k) - qpow (-1) (S k)) / qn (S k).
+
+(* end to end: the rules returned by qnwtrap / qnwsimp for 2 and 3 dimensions (the property's d <= 3)
+   integrate products of linear (resp. cubic) polynomials in the coordinates exactly, have positive
+   weights and total mass the volume of the box.  lin c x = c0 + c1 x, cub c x = c0 + .. + c3 x^3,
+   lin_int / cub_int their exact integrals over [a,b] (Proofs.v). *)
+Theorem C08_qnwtrap_2d_exact : forall n1 a1 b1 n2 a2 b2 c1 c2,
+  (2 <= n1)%nat -> a1 < b1 -> (2 <= n2)%nat -> a2 < b2 ->
+  exists nodes weights, qnwtrap [(n1, a1, b1); (n2, a2, b2)] = Some (nodes, weights) /\
+    length nodes = (n2 * n1)%nat /\ length weights = (n2 * n1)%nat /\
+    Forall (fun w => 0 < w) weights /\
+    sumq weights == (b1 - a1) * (b2 - a2) /\
+    quad nodes weights (prodfun [lin c1; lin c2]) == lin_int c1 a1 b1 * lin_int c2 a2 b2.
+Proof. exact qnwtrap_2d. Qed.
+Print Assumptions C08_qnwtrap_2d_exact.
+
+Theorem C08_qnwtrap_3d_exact : forall n1 a1 b1 n2 a2 b2 n3 a3 b3 c1 c2 c3,
+  (2 <= n1)%nat -> a1 < b1 -> (2 <= n2)%nat -> a2 < b2 -> (2 <= n3)%nat -> a3 < b3 ->
+  exists nodes weights, qnwtrap [(n1, a1, b1); (n2, a2, b2); (n3, a3, b3)] = Some (nodes, weights) /\
+    length nodes = length weights /\
+    Forall (fun w => 0 < w) weights /\
+    sumq weights == (b1 - a1) * (b2 - a2) * (b3 - a3) /\
+    quad nodes weights (prodfun [lin c1; lin c2; lin c3])
+    == lin_int c1 a1 b1 * lin_int c2 a2 b2 * lin_int c3 a3 b3.
+Proof. exact qnwtrap_3d. Qed.
+Print Assumptions C08_qnwtrap_3d_exact.
+
+Theorem C08_qnwsimp_2d_exact : forall n1 a1 b1 n2 a2 b2 c1 c2,
+  (2 <= n1)%nat -> a1 < b1 -> (2 <= n2)%nat -> a2 < b2 ->
+  exists nodes weights, qnwsimp [(n1, a1, b1); (n2, a2, b2)] = Some (nodes, weights) /\
+    length nodes = length weights /\
+    Forall (fun w => 0 < w) weights /\
+    sumq weights == (b1 - a1) * (b2 - a2) /\
+    quad nodes weights (prodfun [cub c1; cub c2]) == cub_int c1 a1 b1 * cub_int c2 a2 b2.
+Proof. exact qnwsimp_2d. Qed.
+Print Assumptions C08_qnwsimp_2d_exact.
+
+Theorem C08_qnwsimp_3d_exact : forall n1 a1 b1 n2 a2 b2 n3 a3 b3 c1 c2 c3,
+  (2 <= n1)%nat -> a1 < b1 -> (2 <= n2)%nat -> a2 < b2 -> (2 <= n3)%nat -> a3 < b3 ->
+  exists nodes weights, qnwsimp [(n1, a1, b1); (n2, a2, b2); (n3, a3, b3)] = Some (nodes, weights) /\
+    length nodes = length weights /\
+    Forall (fun w => 0 < w) weights /\
+    sumq weights == (b1 - a1) * (b2 - a2) * (b3 - a3) /\
+    quad nodes weights (prodfun [cub c1; cub c2; cub c3])
+    == cub_int c1 a1 b1 * cub_int c2 a2 b2 * cub_int c3 a3 b3.
+Proof. exact qnwsimp_3d. Qed.
+Print Assumptions C08_qnwsimp_3d_exact.
+
 (* the hypotheses are satisfiable: 3-point trapezoid on [0,1] x 3-point Simpson on [0,2], monomial x*y^3 *)
 Example ex_trap : match qnwtrap1 3 0 1 with
   | Some (x, w) => Qs_eqb x [0; 1 # 2; 1] && Qs_eqb w [1 # 4; 1 # 2; 1 # 4] | None => false end = true.
@@ -74,3 +164,6 @@ Example ex_tensor : match qnwtrap1 3 0 1, qnwsimp1 2 0 2 with
       | None => false end
   | _, _ => false end = true.
 Proof. vm_compute. reflexivity. Qed.
+Example ex_affine_hyp : forall k, (k <= 1)%nat ->
+  quad [0] [2] (fun t => qpow t k) == (qpow 1 (S k) - qpow (-1) (S k)) / qn (S k).
+Proof. intros [|[|k]] H; [vm_compute; reflexivity | vm_compute; reflexivity | exfalso; inversion H as [|? H']; inversion H']. Qed.
